@@ -3,6 +3,7 @@
 // Trusted (A3): `slice.iter().map(f).collect::<String>()` applies f pointwise (map_collect_string).
 use vstd::prelude::*;
 verus! {
+//@export-begin
 global size_of usize == 8;
 
 //@item src/render/text_renderer.rs :: enum BorderSegHoriz
@@ -265,5 +266,6 @@ impl<T: Clone> BorderHoriz<T> {
     }
 //@end
 }
+//@export-end
 } // verus!
 fn main() {}
